@@ -17,6 +17,7 @@ import LzmaVerif.Model.Parse
 import LzmaVerif.Model.Bcj2
 import LzmaVerif.Model.LzDecoder
 import LzmaVerif.Model.EncWindow
+import LzmaVerif.Generated.TwinParams
 /-! Request handlers: each maps a parsed request to the canonical answer line. -/
 namespace Driver
 open LzmaVerif
@@ -348,8 +349,35 @@ def handleLzDec (a : Args) : String :=
        if a.nat? "class" == some 1 && e.startsWith "panic" then "panic" else s!"err {e}")
   | _, _, _ => "bad-op"
 
+/-- `twin.extend buf=<hex> rp=<n> cl=<n> dist=<n> limit=<n>`: `lz::extend_match` as modelled in `Model/Twins.lean`
+    with the constants regenerated from the source (`TwinGen.params`): the optimized twin's result; `mismatch` if the
+    portable twin (when it does not panic) says something else.
+    `twin.norm off=<u32> vals=<u32,...>`: `LZEncoder::normalize` (i32 values passed as their u32 bit patterns). -/
+def handleTwin (cmd : String) (a : Args) : String :=
+  match cmd with
+  | "twin.extend" =>
+    (match a.bytes? "buf", a.nat? "rp", a.nat? "cl", a.nat? "dist", a.nat? "limit" with
+     | some buf, some rp, some cl, some dist, some limit =>
+       let o := (Twins.extendMatchOptT TwinGen.params buf rp cl dist limit).1
+       (match Twins.extendMatchPortable TwinGen.params buf rp cl dist limit with
+        | some q => if q == o then s!"ok {o}" else s!"mismatch {o} {q}"
+        | none => s!"ok {o}")
+     | _, _, _, _, _ => "bad-op")
+  | _ =>
+    (match a.nat? "off", a.nats? "vals" with
+     | some off, some vals =>
+       let toI (n : Nat) : Int := if n < 2147483648 then (n : Int) else (n : Int) - 4294967296
+       let toU (i : Int) : Nat := (if i < 0 then i + 4294967296 else i).toNat
+       let scalar := Twins.normalizeScalar (toI off) (vals.map toI)
+       let simd8 := Twins.normalizeSimd (toI off) 8 0 (vals.map toI)
+       let simd4 := Twins.normalizeSimd (toI off) 4 3 (vals.map toI)
+       if scalar != simd8 || scalar != simd4 then "mismatch" else
+       if scalar.isEmpty then "ok" else s!"ok {",".intercalate (scalar.map fun i => toString (toU i))}"
+     | _, _ => "bad-op")
+
 def handle (cmd : String) (a : Args) : String :=
   match cmd with
+  | "twin.extend" | "twin.norm" => handleTwin cmd a
   | "lzdec.run" => handleLzDec a
   | "encwin.trace" => handleEncWin a
   | "bcj2.enc" | "bcj2.dec" => handleBcj2 cmd a
